@@ -971,12 +971,26 @@ def sym_abs(x):
 
 
 def sym_max(a, b):
+    if _isnf(a) or _isnf(b):
+        if _isnf(a) and _isnf(b):
+            return max(a, b)
+        nf, other = (a, b) if _isnf(a) else (b, a)
+        if math.isnan(nf):
+            return nf
+        return nf if nf > 0 else other
     a = as_symreal(a)
     b = as_symreal(b)
     return sym_ite(a >= b, a, b)
 
 
 def sym_min(a, b):
+    if _isnf(a) or _isnf(b):
+        if _isnf(a) and _isnf(b):
+            return min(a, b)
+        nf, other = (a, b) if _isnf(a) else (b, a)
+        if math.isnan(nf):
+            return nf
+        return nf if nf < 0 else other
     a = as_symreal(a)
     b = as_symreal(b)
     return sym_ite(a <= b, a, b)
